@@ -1111,3 +1111,82 @@ def replay(ctx, rep):   # noqa: F811
         pye()
         return common.scenario_replay(ctx, rep, {'samerel': same_relative_scenarios})
     return _replay_main2(ctx, rep)
+
+
+# ---------------------------------------------------------------------------
+# ResourceSet.can_resolve / resolve vs Model/Href.v (resolve_relfirst): which registered resource an href reaches,
+# with registries that also hold aliases (raw strings), for referrers in several directories
+
+def href_corr(ctx, out):
+    from pyecore.ecore import EClass, EAttribute, EString
+    from pyecore.resources import ResourceSet, URI
+    from pyecore.resources.resource import Resource
+    rng = common.rng_for(ctx.seed, 'C14:href')
+    n = 300 if ctx.tier != 'thorough' else 6000
+    model = common.Model()
+    A = EClass('A')
+    A.eStructuralFeatures.append(EAttribute('name', EString))
+    segs = ['d1', 'd2', 'x', 'sub', 'a', 'b', 'c.xmi', 'b.xmi']
+    cnt = hits = alias_cases = 0
+    try:
+        for it in range(n):
+            def rp():
+                return '/' + '/'.join(rng.choice(segs) for _ in range(rng.randrange(1, 4)))
+            files = list(dict.fromkeys(rp() for _ in range(rng.randrange(2, 5))))
+            frm = rng.choice(files)
+            rs = ResourceSet()
+            reg = []
+            res_of = {}
+            for i, fpath in enumerate(files):
+                r = Resource(URI(fpath))
+                o = A(name=f'obj{i}')
+                r.append(o)
+                rs.resources[URI(fpath).normalize()] = r
+                r.resource_set = rs
+                res_of[i] = r
+                reg.append((URI(fpath).normalize(), i))
+            # the href: what save would write for a target, or an arbitrary relative string
+            tgt = rng.randrange(len(files))
+            if rng.random() < 0.7:
+                href = URI(frm).relative_from_me(URI(files[tgt]))
+            else:
+                href = '/'.join(rng.choice(segs + ['..']) for _ in range(rng.randrange(1, 4)))
+            # aliases: raw strings mapped to some resource (as the on-demand loader / a user may register)
+            for _ in range(rng.randrange(0, 3)):
+                k = href if rng.random() < 0.5 else rng.choice(segs)
+                if k not in [x for x, _ in reg]:
+                    j = rng.randrange(len(files))
+                    rs.resources[k] = res_of[j]
+                    reg.append((k, j))
+                    alias_cases += 1
+            frm_res = rs.resources[URI(frm).normalize()]
+            try:
+                can = rs.can_resolve(f'{href}#/', frm_res)
+                got = rs.resolve(f'{href}#/', frm_res) if can else None
+                impl = [1, int(got.name[3:])] if got is not None else [0, 0]
+            except Exception as e:  # noqa
+                impl = ['exc', type(e).__name__]
+            t = [len(frm)] + [ord(c) for c in frm] + [len(href)] + [ord(c) for c in href] + [len(reg)]
+            for k, v in reg:
+                t += [len(k)] + [ord(c) for c in k] + [v]
+            mod = model.ask('href', t)
+            cnt += 1
+            hits += int(impl[0] == 1)
+            if list(mod) != impl:
+                out.diff(f'href resolution: from {frm!r} href {href!r} registry {reg}: model {list(mod)} implementation {impl}',
+                         {'kind': 'href', 'from': frm, 'href': href, 'registry': reg})
+                if cnt > 20 and len([1]) and out is not None and getattr(out, 'diffs', None) and len(out.diffs) > 5:
+                    break
+    finally:
+        model.close()
+    out.coverage['href_resolutions_model_vs_ResourceSet'] = cnt
+    out.coverage['href_resolutions_found'] = hits
+    out.coverage['href_registries_with_aliases'] = alias_cases
+
+
+_run_main3 = run
+
+
+def run(ctx, out):   # noqa: F811
+    _run_main3(ctx, out)
+    href_corr(ctx, out)
